@@ -157,7 +157,8 @@ impl Env {
 pub fn scratch_root() -> PathBuf {
     std::env::var("VERIF_SCRATCH")
         .map(PathBuf::from)
-        .unwrap_or_else(|_| PathBuf::from(VERIF_ROOT).join(".scratch"))
+        // one directory per process: concurrent runs must not wipe each other's files
+        .unwrap_or_else(|_| PathBuf::from(VERIF_ROOT).join(".scratch").join(format!("p{}", std::process::id())))
 }
 
 /// One property = generator + oracle + classifier.
@@ -234,6 +235,9 @@ pub struct Finding {
     pub what: String,
     #[serde(default)]
     pub commit: String,
+    /// other properties whose generators must exclude the same defect (no replay is run for them)
+    #[serde(default)]
+    pub also: Vec<String>,
 }
 
 pub fn load_findings(prop: &str) -> Vec<Finding> {
@@ -250,7 +254,7 @@ pub fn load_findings(prop: &str) -> Vec<Finding> {
                 None
             }
         })
-        .filter(|f| f.property == prop)
+        .filter(|f| f.property == prop || f.also.iter().any(|a| a == prop))
         .collect()
 }
 
@@ -308,6 +312,11 @@ pub fn mix_seed(seed: u64, prop: &str, worker: usize) -> [u8; 32] {
 }
 
 thread_local! {
+    /// ids of the known findings active for the case being checked (empty in strict mode)
+    pub static ACTIVE_KNOWN: std::cell::RefCell<HashSet<String>> = std::cell::RefCell::new(HashSet::new());
+}
+
+thread_local! {
     static LAST_PANIC: std::cell::RefCell<Option<String>> = const { std::cell::RefCell::new(None) };
 }
 
@@ -335,6 +344,7 @@ pub fn install_panic_hook() {
 /// Run a check, converting panics into failures of kind "panic".
 fn guarded<P: Property>(p: &P, input: &P::Input, obs: &mut Obs, env: &Env) -> CheckResult {
     LAST_PANIC.with(|p| *p.borrow_mut() = None);
+    ACTIVE_KNOWN.with(|k| *k.borrow_mut() = if env.strict { HashSet::new() } else { env.active_known.clone() });
     match catch_unwind(AssertUnwindSafe(|| p.check(input, obs, env))) {
         Ok(r) => r,
         Err(e) => {
@@ -457,6 +467,14 @@ impl<P: Property> DynProp for Adapter<P> {
         {
             let env = Env::new(tier, 0, HashSet::new(), true);
             for f in &findings {
+                if f.property != id {
+                    // listed under another property (whose check replays it); here only the generator exclusion applies
+                    if f.status == "known" {
+                        known_lines.push(format!("KNOWN-FINDING: property={} {} [{}; replayed by the {} check]", id, f.what, f.id, f.property));
+                        active.insert(f.id.clone());
+                    }
+                    continue;
+                }
                 if f.replay.is_empty() {
                     continue;
                 }
